@@ -1,4 +1,5 @@
 import OpcuaVerif.Model.C13
+import OpcuaVerif.Generated.CryptoPolicy
 
 /-!
 C13 — Channel keys are derived per the specification and agree on both ends.
@@ -371,5 +372,52 @@ example : ∃ la ra, deriveKeys realH .basic256Sha256 [1] [2] = .ok (la, ra) := 
   obtain ⟨k2, h2⟩ := makeKeys_total realH realH_laws .basic256Sha256 [2] [1] (by decide)
   unfold makeKeys at h1 h2
   exact ⟨k2, k1, by simp [deriveKeys, deriveKeysW, h1, h2, Outcome.bind]⟩
+
+/-! ### the model's per-policy constants are the ones in the source (translator T2) -/
+
+/-- the Rust variant name of a policy -/
+def Policy.rustName : Policy → String
+  | .none => "None" | .basic128Rsa15 => "Basic128Rsa15" | .basic256 => "Basic256"
+  | .basic256Sha256 => "Basic256Sha256" | .aes128Sha256RsaOaep => "Aes128Sha256RsaOaep"
+  | .aes256Sha256RsaPss => "Aes256Sha256RsaPss" | .unknown => "Unknown"
+
+def HashAlg.rustName : HashAlg → String
+  | .sha1 => "sha1" | .sha256 => "sha256"
+
+open OpcuaVerif.Generated.CryptoPolicy in
+/-- `Generated/CryptoPolicy.lean` is regenerated from `security_policy.rs` on every check: the
+derived signature key length, the encrypting key / block lengths and the P_hash digest the model
+uses for each policy are exactly the constants and match arms of the source (and `None`/`Unknown`
+have none). -/
+theorem model_matches_source (p : Policy) :
+    p.derivedSigKeyBits? = lookup derivedSigKeyBits p.rustName ∧
+    p.encLens? = lookup encLens p.rustName ∧
+    p.hashAlg?.map HashAlg.rustName = lookup prfDigest p.rustName := by
+  cases p <;> decide +kernel
+
+/-! ### standard test vectors, evaluated by the kernel on the model's own definitions
+(FIPS 180-4 "abc" and the 448-bit two-block message; RFC 2202 / RFC 4231 test case 2; RFC 4231 test
+case 6 with a 131-byte key, i.e. longer than the block) -/
+
+theorem sha256_abc : sha256 [0x61,0x62,0x63] = [0xba,0x78,0x16,0xbf,0x8f,0x01,0xcf,0xea,0x41,0x41,0x40,0xde,0x5d,0xae,0x22,0x23,0xb0,0x03,0x61,0xa3,0x96,0x17,0x7a,0x9c,0xb4,0x10,0xff,0x61,0xf2,0x00,0x15,0xad] := by decide +kernel
+
+theorem sha1_abc : sha1 [0x61,0x62,0x63] = [0xa9,0x99,0x3e,0x36,0x47,0x06,0x81,0x6a,0xba,0x3e,0x25,0x71,0x78,0x50,0xc2,0x6c,0x9c,0xd0,0xd8,0x9d] := by decide +kernel
+
+theorem sha256_two_blocks : sha256 [0x61,0x62,0x63,0x64,0x62,0x63,0x64,0x65,0x63,0x64,0x65,0x66,0x64,0x65,0x66,0x67,0x65,0x66,0x67,0x68,0x66,0x67,0x68,0x69,0x67,0x68,0x69,0x6a,0x68,0x69,0x6a,0x6b,0x69,0x6a,0x6b,0x6c,0x6a,0x6b,0x6c,0x6d,0x6b,0x6c,0x6d,0x6e,0x6c,0x6d,0x6e,0x6f,0x6d,0x6e,0x6f,0x70,0x6e,0x6f,0x70,0x71] =
+    [0x24,0x8d,0x6a,0x61,0xd2,0x06,0x38,0xb8,0xe5,0xc0,0x26,0x93,0x0c,0x3e,0x60,0x39,0xa3,0x3c,0xe4,0x59,0x64,0xff,0x21,0x67,0xf6,0xec,0xed,0xd4,0x19,0xdb,0x06,0xc1] := by decide +kernel
+
+theorem sha1_two_blocks : sha1 [0x61,0x62,0x63,0x64,0x62,0x63,0x64,0x65,0x63,0x64,0x65,0x66,0x64,0x65,0x66,0x67,0x65,0x66,0x67,0x68,0x66,0x67,0x68,0x69,0x67,0x68,0x69,0x6a,0x68,0x69,0x6a,0x6b,0x69,0x6a,0x6b,0x6c,0x6a,0x6b,0x6c,0x6d,0x6b,0x6c,0x6d,0x6e,0x6c,0x6d,0x6e,0x6f,0x6d,0x6e,0x6f,0x70,0x6e,0x6f,0x70,0x71] =
+    [0x84,0x98,0x3e,0x44,0x1c,0x3b,0xd2,0x6e,0xba,0xae,0x4a,0xa1,0xf9,0x51,0x29,0xe5,0xe5,0x46,0x70,0xf1] := by decide +kernel
+
+theorem hmacSha1_rfc2202_case2 : hmacSha1 [0x4a,0x65,0x66,0x65] [0x77,0x68,0x61,0x74,0x20,0x64,0x6f,0x20,0x79,0x61,0x20,0x77,0x61,0x6e,0x74,0x20,0x66,0x6f,0x72,0x20,0x6e,0x6f,0x74,0x68,0x69,0x6e,0x67,0x3f] =
+    [0xef,0xfc,0xdf,0x6a,0xe5,0xeb,0x2f,0xa2,0xd2,0x74,0x16,0xd5,0xf1,0x84,0xdf,0x9c,0x25,0x9a,0x7c,0x79] := by decide +kernel
+
+theorem hmacSha256_rfc4231_case2 : hmacSha256 [0x4a,0x65,0x66,0x65] [0x77,0x68,0x61,0x74,0x20,0x64,0x6f,0x20,0x79,0x61,0x20,0x77,0x61,0x6e,0x74,0x20,0x66,0x6f,0x72,0x20,0x6e,0x6f,0x74,0x68,0x69,0x6e,0x67,0x3f] =
+    [0x5b,0xdc,0xc1,0x46,0xbf,0x60,0x75,0x4e,0x6a,0x04,0x24,0x26,0x08,0x95,0x75,0xc7,0x5a,0x00,0x3f,0x08,0x9d,0x27,0x39,0x83,0x9d,0xec,0x58,0xb9,0x64,0xec,0x38,0x43] := by decide +kernel
+
+theorem hmacSha256_rfc4231_case6 :
+    hmacSha256 (List.replicate 131 0xaa) [0x54,0x65,0x73,0x74,0x20,0x55,0x73,0x69,0x6e,0x67,0x20,0x4c,0x61,0x72,0x67,0x65,0x72,0x20,0x54,0x68,0x61,0x6e,0x20,0x42,0x6c,0x6f,0x63,0x6b,0x2d,0x53,0x69,0x7a,0x65,0x20,0x4b,0x65,0x79,0x20,0x2d,0x20,0x48,0x61,0x73,0x68,0x20,0x4b,0x65,0x79,0x20,0x46,0x69,0x72,0x73,0x74] =
+    [0x60,0xe4,0x31,0x59,0x1e,0xe0,0xb6,0x7f,0x0d,0x8a,0x26,0xaa,0xcb,0xf5,0xb7,0x7f,0x8e,0x0b,0xc6,0x21,0x37,0x28,0xc5,0x14,0x05,0x46,0x04,0x0f,0x0e,0xe3,0x7f,0x54] := by
+  decide +kernel
 
 end OpcuaVerif.C13
